@@ -92,6 +92,7 @@ var hostile = []string{
 	"-99999999999999999999", "1e9", "NaN", "true", "false", "maybe",
 	"@", "@@", "a@", "@b", "a@b/", "/", "a@b@c", "a/b/c", "x@y.example/" + strings.Repeat("r", 1100), strings.Repeat("d", 1100) + ".example",
 	"test@example.net", "example.net", "room@conference.example.net/me", "room@conference.example.net",
+	"\uff52\uff4f\uff4d\uff45\uff4f@example.net/orchard", "rene\u0301@example.net", "\uff2a\uff35\uff2c\uff29\uff25\uff34@EXAMPLE.com/Balcony", "\u212aelvin@example.net/x", "e\u0301e\u0301e\u0301e\u0301@example.net/r", "\uff52@example.net",
 	"====", "AAAA", "A", "AA=A", "!!!!", "aGVsbG8=", "aGVsbG8", strings.Repeat("QUFB", 400),
 	"2006-01-02T15:04:05Z", "20060102T15:04:05", "0000-00-00T00:00:00Z", "2006-01-02T15:04:05+99:99", "+25:00", "Z", "-00:60",
 	"sha-1", "sha-256", "md5", "sha-1024", "cid:sha1+8f35fef110ffc5df08d579a50083ff9308fb6242@bob.xmpp.org", "cid:",
